@@ -137,8 +137,8 @@ def run(tier):
 
     c.assumptions += ['count-table values are exact multiples of 1/24 up to 1e-6 (the driver refuses anything else before scaling)',
                       'XA tags are written in bwa format (every alternative hit terminated by ";"): reported hits = alternatives + 1',
-                      'mate selection excludes the OTHER mate: a record with neither mate flag passes --r1only/--r2only',
-                      'reads the statement does not decide (record with both mate flags under --r1only/--r2only; read strictly '
+                      'a record with neither mate flag passes --r1only (a single-end read is read 1) and is undecided under --r2only',
+                      'reads the statement does not decide (record with both mate flags under --r1only/--r2only, single-end record under --r2only; read strictly '
                       'spanning a blacklist interval) may or may not be counted: the table must lie between the two readings']
     sig = set()
     for e in tables:
